@@ -540,3 +540,50 @@ def mig_roots(A, B):
 def mig_closure(A, B, root):
     """pairs reachable from one root"""
     return mig_phi(A, B, [root])
+
+
+class MigPkg:
+    """One scratch module with TWO freshly generated packages -- verifh/geno (original schema) and verifh/genm (migrated
+    schema) -- and the driver harness/go/tlodrv built against both (one link, shared compile of basictl; -trimpath so that
+    the Go build cache is hit across scratch directories)."""
+
+    def __init__(self, scratch, name, tl2gen, orig_files, mig_files, options):
+        self.dir = Path(scratch) / f"migmod_{name}"
+        self.tl2gen, self.options = tl2gen, list(options)
+        self.orig_files, self.mig_files = [str(f) for f in orig_files], [str(f) for f in mig_files]
+        self.exe = None
+        self.log = ""
+        self.failed = None    # "gen-orig" | "gen-mig" | "build-orig" | "build-mig" | "build-driver"
+
+    def _gen(self, sub, files):
+        cmd = [str(self.tl2gen), "--language=go", f"--outdir={self.dir / sub}", f"--pkgPath=verifh/{sub}/tl",
+               "--basicPkgPath=github.com/VKCOM/tl/pkg/basictl", "--generateRandomCode"] + self.options + files
+        rc, so, se = vlib.sh(cmd, timeout=600)
+        self.log += so + se
+        return rc == 0
+
+    def prepare(self):
+        import shutil
+        if self.dir.exists():
+            shutil.rmtree(self.dir)
+        self.dir.mkdir(parents=True)
+        if not self._gen("geno", self.orig_files):
+            self.failed = "gen-orig"
+            return False
+        if not self._gen("genm", self.mig_files):
+            self.failed = "gen-mig"
+            return False
+        src = vlib.VERIF / "harness" / "go" / "tlodrv"
+        (self.dir / "drv").mkdir()
+        shutil.copy(src / "main.go", self.dir / "drv" / "main.go")
+        (self.dir / "go.mod").write_text((src / "go.mod.tmpl").read_text().replace("@REPO@", str(vlib.REPO)))
+        shutil.copy(vlib.REPO / "go.sum", self.dir / "go.sum")
+        exe = self.dir / "tlodrv"
+        rc, so, se = vlib.sh(["go", "build", "-trimpath", "-o", str(exe), "./drv"], cwd=self.dir, env=vlib.goenv(), timeout=1800)
+        if rc != 0:
+            self.log += so + se
+            first = next((l for l in (so + se).splitlines() if l.startswith("# ")), "")
+            self.failed = "build-mig" if "verifh/genm" in first else "build-orig" if "verifh/geno" in first else "build-driver"
+            return False
+        self.exe = exe
+        return True
